@@ -112,7 +112,9 @@ impl<'a> ResourceRecordManager<'a> {
         let mut found: Vec<Vec<&'a ResourceRecord>> = Vec::new();
 
         if filter.subdomain {
-            if let Some(trie) = self.resources.subtrie(&key) {
+            // the queried name does not need to be a node of the trie, its closest descendant holds
+            // every key that starts with it
+            if let Some(trie) = self.resources.get_raw_descendant(&key) {
                 found = trie
                     .iter()
                     .map(|(_domain, resources)| {
